@@ -414,10 +414,12 @@ Section OpenEndToEnd.
     destruct (accepted r (fst b + jb_n b)). exact IH.
   Qed.
 
-  (* what the tables named by a manifest prefix hold: a well-formed layout in which nothing is newer than the
-     recorded sequence number q, that answers at q like the plain map of the batches those tables make durable (C01,
-     C06 and C13 are about exactly this: flushes and compactions keep it); and no journal batch that the sequence
-     rule accepts starts AT q (the rule tests "first number < q", the batches written after a flush start above it) *)
+  (* what the tables named by a manifest prefix hold: a well-formed layout that answers like the plain map of the
+     batches those tables make durable (C01, C06 and C13 are about exactly this: flushes and compactions keep it),
+     read at a sequence number s0 that nothing in the tables exceeds and below which every journal batch that the
+     sequence rule accepts starts.  s0 is the recorded sequence number q after a flush at run time (the rule tests
+     "first number < q", the batches written after the flush start above q) and q - 1 when the manifest was written
+     by a recovery (which records one more than the last number it replayed). *)
   Definition tables_answer (o : oopts) (img : simage) (mrecs : list (SR.srec * bytes)) (ks : nat)
       (newb : SR.atrec -> list Crash.batch) (cont : Crash.batch -> list brec) (jfz : option jdesc) (jl : jdesc) : Prop :=
     forall k j nf q live cps lv d0, (ks <= k)%nat ->
@@ -425,11 +427,12 @@ Section OpenEndToEnd.
       (forall l : nat, nth l lv [] = live_at (Z.of_nat l) live) -> MemDB.mdb_new mp = MemDB.Ok d0 ->
       let st0 := mkBS (Some d0) None (levels_of (si_files img) (sort_levels lv)) in
       wfb st0 /\ uniq_in (all_entries (absS st0)) /\ q <= keyMaxSeq kp /\
-      (forall x, In x (all_entries (absS st0)) -> e_seq x <= q) /\
-      (forall b, (In b (jd_bs jl) \/ exists jf, jfz = Some jf /\ In b (jd_bs jf)) -> q <= fst b -> q < fst b) /\
-      forall key, wf_bytes key ->
-        bapi (getb st0 key q) =
-        Some (a_get c key (cmap cont [] (flat_map newb (flat_map SR.sr_adds (firstn k (map fst mrecs)))))).
+      exists s0, s0 <= q /\
+        (forall x, In x (all_entries (absS st0)) -> e_seq x <= s0) /\
+        (forall b, (In b (jd_bs jl) \/ exists jf, jfz = Some jf /\ In b (jd_bs jf)) -> q <= fst b -> s0 < fst b) /\
+        forall key, wf_bytes key ->
+          bapi (getb st0 key s0) =
+          Some (a_get c key (cmap cont [] (flat_map newb (flat_map SR.sr_adds (firstn k (map fst mrecs)))))).
 
   (* the journals' batches: their records are what the ghost says, and their sequence numbers are in range *)
   Definition journal_batches_ok (cont : Crash.batch -> list brec) (jfz : option jdesc) (jl : jdesc) : Prop :=
@@ -454,7 +457,7 @@ Section OpenEndToEnd.
       as (r & rimg & k & j & nf & q & live & cps & lv & bss & d & Eopen & Him & Hk & Espec & Erec & _ & Hack & Hiss & Hsort &
           Eseq & Ekept & Hfrom & Ebs & Hlv & Hmok & Hin & Eimg & _).
     destruct (OpenPathProofs.new_mem_ok kp seek_val mp mpok c) as (d0 & Enew & Hm0 & Hent0).
-    destruct (Htab k j nf q live cps lv d0 Hk Espec Hlv Enew) as (W0 & Hu & Hqm & Hold & Hgap & Hans).
+    destruct (Htab k j nf q live cps lv d0 Hk Espec Hlv Enew) as (W0 & Hu & Hqm & s0 & Hs0 & Hold & Hgap & Hans).
     set (st0 := mkBS (Some d0) None (levels_of (si_files img) (sort_levels lv))) in *.
     set (acc := fst (accepted (concat bss) q)) in *.
     set (tabs := flat_map newb (flat_map SR.sr_adds (firstn k (map fst mrecs)))) in *.
@@ -471,7 +474,7 @@ Section OpenEndToEnd.
     { apply accepted_bound; [|exact Hqm]. intros b Hb. exact (proj2 (Hjb b (Hfrom b Hb))). }
     assert (EL : recover rimg = tabs ++ map jb_abs acc).
     { unfold recover. rewrite Erec. cbn [snd]. rewrite Ekept, map_pair_batch. reflexivity. }
-    assert (Hgap' : forall b, In b (concat bss) -> q <= fst b -> q < fst b) by (intros b Hb; exact (Hgap b (Hfrom b Hb))).
+    assert (Hgap' : forall b, In b (concat bss) -> q <= fst b -> s0 < fst b) by (intros b Hb; exact (Hgap b (Hfrom b Hb))).
     exists r, (recover rimg). split; [exact Eopen|].
     assert (Ewm : os_bs r = with_mem st0 d) by (rewrite Ebs; reflexivity).
     assert (Hcont : forall b, In b acc -> cont (jb_abs b) = jb_recs b).
@@ -479,13 +482,13 @@ Section OpenEndToEnd.
     split.
     { (* well-formed: any key will do to invoke the theorem *)
       destruct (replayed_state_answers c cok kp kpok seek_val mp mpok tp tcrc decompress fname ufc verify ri
-                  st0 d0 d (concat bss) q q [] (cmap cont [] tabs) W0 eq_refl Hent0 Hu Hold (N.le_refl q) Hgap' Hbok Hemax Hmok Hin (Forall_nil _)
+                  st0 d0 d (concat bss) s0 q [] (cmap cont [] tabs) W0 eq_refl Hent0 Hu Hold Hs0 Hgap' Hbok Hemax Hmok Hin (Forall_nil _)
                   (Hans [] (Forall_nil _))) as (W' & _).
       rewrite Ewm. exact W'. }
     split; [exact Hack|]. split; [exact Hiss|]. split; [exact Hsort|]. split; [exact Eimg|].
     intros key Wk.
     destruct (replayed_state_answers c cok kp kpok seek_val mp mpok tp tcrc decompress fname ufc verify ri
-                st0 d0 d (concat bss) q q key (cmap cont [] tabs) W0 eq_refl Hent0 Hu Hold (N.le_refl q) Hgap' Hbok Hemax Hmok Hin Wk
+                st0 d0 d (concat bss) s0 q key (cmap cont [] tabs) W0 eq_refl Hent0 Hu Hold Hs0 Hgap' Hbok Hemax Hmok Hin Wk
                 (Hans key Wk)) as (_ & G).
     rewrite Ewm, Eseq, G, EL, cmap_app, (cmap_batches cont acc Hcont). reflexivity.
   Qed.
